@@ -179,6 +179,29 @@ func tlcVectorLines(path string, fn func(raw []byte)) error {
 	return sc.Err()
 }
 
+// tlcArrayLines is tlcVectorLines for PrintT(ToJson(<sequence>)) lines.
+func tlcArrayLines(path string, fn func(raw []byte)) error {
+	f, err := os.Open(path)
+	if err != nil {
+		return err
+	}
+	defer f.Close()
+	sc := bufio.NewScanner(f)
+	sc.Buffer(make([]byte, 1<<20), 1<<26)
+	for sc.Scan() {
+		line := sc.Bytes()
+		if len(line) < 4 || line[0] != '"' || line[1] != '[' {
+			continue
+		}
+		var s string
+		if err := json.Unmarshal(line, &s); err != nil {
+			return fmt.Errorf("bad vector line %.80q: %v", line, err)
+		}
+		fn([]byte(s))
+	}
+	return sc.Err()
+}
+
 func ints2bytes(a []int) []byte {
 	b := make([]byte, len(a))
 	for i, v := range a {
